@@ -37,6 +37,23 @@ fn g2<D: DualNum<f64> + Clone>(x: &[D]) -> D {
     let n = x.len();
     (x[n - 1].clone() * x[0].clone()).cos() - x[1 % n].sqrt() * 0.5 + x[0].atan()
 }
+fn g3<D: DualNum<f64> + Clone>(a: &[D], b: &[D]) -> D {
+    let (m, n) = (a.len(), b.len());
+    a[0].sin() * b[n - 1].exp() + (a[m - 1].clone() * b[0].clone() + 1.5).ln() / (b[0].clone() + 3.0) - (a[0].clone() * b[n - 1].clone()).tanh()
+}
+const G3_PY: &str = "a[0].sin() * b[len(b) - 1].exp() + (a[len(a) - 1] * b[0] + 1.5).log() / (b[0] + 3.0) - (a[0] * b[len(b) - 1]).tanh()";
+const PY_VEC_SNAP: &str = r#"
+import json as __json2, struct as __struct2
+def __vb(x):
+    if x is None: return None
+    if isinstance(x, float): return __struct2.unpack('<Q', __struct2.pack('<d', x))[0]
+    return [__vb(e) for e in x]
+def __vsnap(o):
+    d = {'cls': type(o).__name__, 'value': __vb(o.value), 'repr': repr(o)}
+    for g in ('first_derivative', 'second_derivative', 'third_derivative'):
+        if hasattr(o, g): d[g] = __vb(getattr(o, g))
+    return __json2.dumps(d)
+"#;
 const G1_PY: &str = "v[0].sin() * v[1 % len(v)].exp() + (v[0] * v[0] + 1.5).log() / (v[len(v) - 1] + 3.0) - v[0].tanh() ** 2";
 const G2_PY: &str = "(v[len(v) - 1] * v[0]).cos() - v[1 % len(v)].sqrt() * 0.5 + v[0].arctan()";
 
@@ -448,7 +465,7 @@ fn main() {
         // ---- drivers with a transcendental closure: the named functions of the fixed-size and dynamic vector classes
         //      (DualN, Dual2Vec, dynamic variants are only reachable from Python through the drivers)
         if drivers_file.is_some() {
-            use nalgebra::DVector;
+            use nalgebra::{DVector, Dyn, U1};
             for n in [1usize, 2, 3, 5, 10, 11, 12] {
                 let xs: Vec<f64> = (0..n).map(|i| 0.4 + 0.27 * i as f64 + 0.1 * rng.unit()).collect();
                 let xlist = format!("[{}]", xs.iter().map(|v| pyf(*v)).collect::<Vec<_>>().join(", "));
@@ -474,6 +491,71 @@ fn main() {
                     let got: Vec<f64> = locals.get_item("__o")?.unwrap().extract()?;
                     rep.check(format!("driver-fn|jacobian|n{n}"), bits(&got, &want), || json!({"python": got, "rust": want}));
                 }
+            }
+            // ---- the vector classes themselves: an intermediate object of the closure is captured, its repr and its
+            //      getters are compared with the parts of the Rust value at the same place (layouts from PyBind's table)
+            py.run(&CString::new(PY_VEC_SNAP).unwrap(), Some(&locals), Some(&locals))?;
+            let vec_classes = table["vec_classes"].as_array().cloned().unwrap_or_default();
+            let bl = |it: &mut dyn Iterator<Item = f64>| -> Value { json!(it.map(|x| x.to_bits()).collect::<Vec<u64>>()) };
+            let mut vcheck = |rep: &mut Report, driver: &str, label: String, want_parts: BTreeMap<String, Value>, want_re: f64, want_repr: String| -> PyResult<()> {
+                let got: Value = serde_json::from_str(&locals.get_item("__o")?.unwrap().extract::<String>()?).unwrap();
+                let cls = got["cls"].as_str().unwrap_or("").to_string();
+                let Some(row) = vec_classes.iter().find(|c| c["py"] == json!(cls)) else {
+                    rep.check(format!("vec-class|{driver}|{label}"), false, || json!({"unknown class": cls, "python": got}));
+                    return Ok(());
+                };
+                let mut ok = row["via"] == json!(driver) && got["value"] == json!(want_re.to_bits()) && got["repr"] == json!(want_repr);
+                let mut why = vec![];
+                if !ok { why.push(json!({"value/repr": {"python": [got["value"].clone(), got["repr"].clone()], "rust": [json!(want_re.to_bits()), json!(want_repr)]}})); }
+                let listed: Vec<String> = row["getters"].as_array().unwrap().iter().map(|g| g[0].as_str().unwrap().to_string()).collect();
+                for g in ["first_derivative", "second_derivative", "third_derivative"] {
+                    if got.get(g).is_some() != listed.iter().any(|l| l == g) { ok = false; why.push(json!({"getter": g, "exists in python": got.get(g).is_some()})); }
+                }
+                for g in row["getters"].as_array().unwrap() {
+                    let name = g[0].as_str().unwrap();
+                    let parts: Vec<Value> = g[1].as_array().unwrap().iter().map(|p| want_parts[p.as_str().unwrap()].clone()).collect();
+                    let want = if parts.len() == 1 { parts[0].clone() } else { Value::Array(parts) };
+                    if got[name] != want { ok = false; why.push(json!({"getter": name, "python": got[name], "model": want})); }
+                }
+                rep.check(format!("vec-class|{cls}|{label}"), ok, || json!({"driver": driver, "class": cls, "differences": why}));
+                Ok(())
+            };
+            for n in [1usize, 2, 3, 5, 10, 11, 12] {
+                let xs: Vec<f64> = (0..n).map(|i| 0.4 + 0.27 * i as f64 + 0.1 * rng.unit()).collect();
+                let xlist = format!("[{}]", xs.iter().map(|v| pyf(*v)).collect::<Vec<_>>().join(", "));
+                let xv = DVector::from_vec(xs.clone());
+                // gradient: DualSVec64 / Dual64Dyn
+                let cap = std::cell::RefCell::new(None);
+                let _ = gradient(|v: DVector<DualDVec64>| { let e = g2(v.as_slice()) * g1(v.as_slice()); *cap.borrow_mut() = Some(e.clone()); e }, xv.clone());
+                let e = cap.into_inner().unwrap();
+                let mut parts = BTreeMap::new();
+                parts.insert("list eps".to_string(), { let m = e.eps.clone().unwrap_generic(Dyn(n), U1); bl(&mut m.iter().copied()) });
+                py.run(&CString::new(format!("__cap = []\nnd.gradient(lambda v: (__cap.append(({G2_PY}) * ({G1_PY})), __cap[-1])[1], {xlist})\n__o = __vsnap(__cap[0])\n")).unwrap(), Some(&locals), Some(&locals))?;
+                vcheck(&mut rep, "gradient", format!("n{n}"), parts, e.re, e.to_string())?;
+                // hessian: Dual2Vec64 / Dual2_64Dyn
+                let cap = std::cell::RefCell::new(None);
+                let _ = hessian(|v: DVector<Dual2DVec64>| { let e = g2(v.as_slice()) * g1(v.as_slice()); *cap.borrow_mut() = Some(e.clone()); e }, xv.clone());
+                let e = cap.into_inner().unwrap();
+                let mut parts = BTreeMap::new();
+                parts.insert("list v1".to_string(), { let m = e.v1.clone().unwrap_generic(U1, Dyn(n)); bl(&mut m.iter().copied()) });
+                parts.insert("rows v2".to_string(), { let m = e.v2.clone().unwrap_generic(Dyn(n), Dyn(n)); Value::Array((0..n).map(|i| bl(&mut (0..n).map(|j| m[(i, j)]))).collect()) });
+                py.run(&CString::new(format!("__cap = []\nnd.hessian(lambda v: (__cap.append(({G2_PY}) * ({G1_PY})), __cap[-1])[1], {xlist})\n__o = __vsnap(__cap[0])\n")).unwrap(), Some(&locals), Some(&locals))?;
+                vcheck(&mut rep, "hessian", format!("n{n}"), parts, e.re, e.to_string())?;
+            }
+            for (m, n) in [(1usize, 1usize), (1, 2), (2, 1), (2, 3), (3, 2), (4, 5), (5, 5), (5, 3), (6, 2), (2, 6)] {
+                let xa: Vec<f64> = (0..m).map(|i| 0.4 + 0.27 * i as f64 + 0.1 * rng.unit()).collect();
+                let xb: Vec<f64> = (0..n).map(|i| 0.3 + 0.21 * i as f64 + 0.1 * rng.unit()).collect();
+                let lst = |v: &[f64]| format!("[{}]", v.iter().map(|v| pyf(*v)).collect::<Vec<_>>().join(", "));
+                let cap = std::cell::RefCell::new(None);
+                let _ = partial_hessian(|a: DVector<HyperDualDVec64>, b: DVector<HyperDualDVec64>| { let e = g3(a.as_slice(), b.as_slice()); *cap.borrow_mut() = Some(e.clone()); e },
+                                        DVector::from_vec(xa.clone()), DVector::from_vec(xb.clone()));
+                let e = cap.into_inner().unwrap();
+                let mut parts = BTreeMap::new();
+                parts.insert("list eps1".to_string(), { let v = e.eps1.clone().unwrap_generic(Dyn(m), U1); bl(&mut v.iter().copied()) });
+                parts.insert("list eps2".to_string(), { let v = e.eps2.clone().unwrap_generic(U1, Dyn(n)); bl(&mut v.iter().copied()) });
+                parts.insert("rows eps1eps2".to_string(), { let h = e.eps1eps2.clone().unwrap_generic(Dyn(m), Dyn(n)); Value::Array((0..m).map(|i| bl(&mut (0..n).map(|j| h[(i, j)]))).collect()) });
+                py.run(&CString::new(format!("__cap = []\nnd.partial_hessian(lambda a, b: (__cap.append({G3_PY}), __cap[-1])[1], {}, {})\n__o = __vsnap(__cap[0])\n", lst(&xa), lst(&xb))).unwrap(), Some(&locals), Some(&locals))?;
+                vcheck(&mut rep, "partial_hessian", format!("m{m}n{n}"), parts, e.re, e.to_string())?;
             }
             // scalar drivers
             let x0 = 0.7 + 0.1 * rng.unit();
